@@ -147,6 +147,7 @@ impl World {
 			}
 		}
 		self.nodes[n].claimables.clear();
+		self.nodes[n].unprocessed_completions.clear();
 		// peers notice
 		for p in 0..self.nodes.len() {
 			if p == n {
